@@ -154,3 +154,219 @@ func (o *Once) Do(f func()) {
 		f()
 	}
 }
+
+// Pool replaces sync.Pool. Get hands back the most recently Put value (the
+// real pool may also drop values or call New: every behaviour of this model
+// is a behaviour of the real one). A value put twice is handed out twice,
+// as the real pool would.
+type Pool struct {
+	New   func() any
+	items []any
+}
+
+// Get takes a value from the pool (scheduling point).
+func (p *Pool) Get() any {
+	vrt.Yield()
+	if n := len(p.items); n > 0 {
+		x := p.items[n-1]
+		p.items = p.items[:n-1]
+		return x
+	}
+	if p.New != nil {
+		return p.New()
+	}
+	return nil
+}
+
+// Put returns a value to the pool (scheduling point).
+func (p *Pool) Put(x any) {
+	vrt.Yield()
+	if x == nil {
+		return
+	}
+	p.items = append(p.items, x)
+}
+
+// Map replaces sync.Map: every operation is atomic and a scheduling point.
+type Map struct {
+	m    map[any]any
+	keys []any // insertion order, for a deterministic Range
+}
+
+func (m *Map) init() {
+	if m.m == nil {
+		m.m = map[any]any{}
+	}
+}
+
+func (m *Map) dropKey(key any) {
+	for i, k := range m.keys {
+		if k == key {
+			m.keys = append(m.keys[:i:i], m.keys[i+1:]...)
+			return
+		}
+	}
+}
+
+// Load returns the value stored for key.
+func (m *Map) Load(key any) (any, bool) {
+	vrt.Yield()
+	m.init()
+	v, ok := m.m[key]
+	return v, ok
+}
+
+// Store sets the value for key.
+func (m *Map) Store(key, value any) {
+	vrt.Yield()
+	m.init()
+	if _, ok := m.m[key]; !ok {
+		m.keys = append(m.keys, key)
+	}
+	m.m[key] = value
+}
+
+// LoadOrStore returns the existing value for key or stores value.
+func (m *Map) LoadOrStore(key, value any) (any, bool) {
+	vrt.Yield()
+	m.init()
+	if v, ok := m.m[key]; ok {
+		return v, true
+	}
+	m.keys = append(m.keys, key)
+	m.m[key] = value
+	return value, false
+}
+
+// LoadAndDelete deletes key and returns its previous value.
+func (m *Map) LoadAndDelete(key any) (any, bool) {
+	vrt.Yield()
+	m.init()
+	v, ok := m.m[key]
+	if ok {
+		delete(m.m, key)
+		m.dropKey(key)
+	}
+	return v, ok
+}
+
+// Delete deletes key.
+func (m *Map) Delete(key any) { m.LoadAndDelete(key) }
+
+// Swap stores value and returns the previous one.
+func (m *Map) Swap(key, value any) (any, bool) {
+	vrt.Yield()
+	m.init()
+	v, ok := m.m[key]
+	if !ok {
+		m.keys = append(m.keys, key)
+	}
+	m.m[key] = value
+	return v, ok
+}
+
+// CompareAndSwap swaps old for new if the stored value equals old.
+func (m *Map) CompareAndSwap(key, old, new any) bool {
+	vrt.Yield()
+	m.init()
+	if v, ok := m.m[key]; ok && v == old {
+		m.m[key] = new
+		return true
+	}
+	return false
+}
+
+// CompareAndDelete deletes key if its value equals old.
+func (m *Map) CompareAndDelete(key, old any) bool {
+	vrt.Yield()
+	m.init()
+	if v, ok := m.m[key]; ok && v == old {
+		delete(m.m, key)
+		m.dropKey(key)
+		return true
+	}
+	return false
+}
+
+// Range calls f for every entry (insertion order; a scheduling point per entry).
+func (m *Map) Range(f func(key, value any) bool) {
+	vrt.Yield()
+	m.init()
+	for _, k := range append([]any(nil), m.keys...) {
+		v, ok := m.m[k]
+		if !ok {
+			continue
+		}
+		if !f(k, v) {
+			return
+		}
+		vrt.Yield()
+	}
+}
+
+// Cond replaces sync.Cond.
+type Cond struct {
+	L       Locker
+	waiters []*condWaiter
+	id      int
+}
+
+type condWaiter struct{ woken bool }
+
+// NewCond returns a condition variable using l.
+func NewCond(l Locker) *Cond { return &Cond{L: l} }
+
+// Wait releases the lock, waits to be woken and takes the lock again.
+func (c *Cond) Wait() {
+	if c.id == 0 {
+		c.id = vrt.NewID()
+	}
+	w := &condWaiter{}
+	c.waiters = append(c.waiters, w)
+	c.L.Unlock()
+	vrt.Block(vrt.KWait, fmt.Sprintf("cond#%d", c.id), c, func() bool { return w.woken })
+	c.L.Lock()
+}
+
+// Signal wakes one waiter.
+func (c *Cond) Signal() {
+	if len(c.waiters) > 0 {
+		c.waiters[0].woken = true
+		c.waiters = c.waiters[1:]
+	}
+}
+
+// Broadcast wakes every waiter.
+func (c *Cond) Broadcast() {
+	for _, w := range c.waiters {
+		w.woken = true
+	}
+	c.waiters = nil
+}
+
+// OnceFunc mirrors sync.OnceFunc.
+func OnceFunc(f func()) func() {
+	var o Once
+	return func() { o.Do(f) }
+}
+
+// OnceValue mirrors sync.OnceValue.
+func OnceValue[T any](f func() T) func() T {
+	var o Once
+	var v T
+	return func() T {
+		o.Do(func() { v = f() })
+		return v
+	}
+}
+
+// OnceValues mirrors sync.OnceValues.
+func OnceValues[T1, T2 any](f func() (T1, T2)) func() (T1, T2) {
+	var o Once
+	var v1 T1
+	var v2 T2
+	return func() (T1, T2) {
+		o.Do(func() { v1, v2 = f() })
+		return v1, v2
+	}
+}
